@@ -285,6 +285,10 @@ def _resubmission_faults(ctx):
     bases = [
         ("parallel{retrying step | slow step}", [{"op": "parallel", "branches": [[retry], [_S(2, sleep=2.5)]], "cfg": tol}]),
         ("parallel{wait 1; step | slow step}", [{"op": "parallel", "branches": [[{"op": "wait", "secs": 1}, _S(1)], [_S(2, sleep=2.5)]], "cfg": tol}]),
+        # the last branch parks at about the instant the first branch's timer is due: the timer thread's refresh call is in
+        # flight while the suspend decision is being published
+        *[(f"parallel{{wait 1; step | step(sleep {sl}); wait 1; step}}", [{"op": "parallel", "branches": [[{"op": "wait", "secs": 1}, _S(1)], [_S(2, sleep=sl), {"op": "wait", "secs": 1}, _S(3)]], "cfg": tol}])
+          for sl in (0.7, 0.8, 0.9, 1.0)],
         ("map[2]{wfcond poll twice} next to a slow step", [{"op": "parallel", "branches": [[{"op": "wfcond", "init": 0, "decisions": [["continue", 1], ["stop"]], "trans": "count"}], [_S(2, sleep=2.5)]], "cfg": tol}]),
     ]
     total = 0
